@@ -276,6 +276,13 @@ def run(tier, rep):
         add_texts("tokens2", [in_context(t["ctx"], t["toks"]) for t in tq.json_prints("TOKENS")])
     # ---- A2 character strings and corpus mutations (C12's generator), compiled to the end
     add_texts("chars", c12.texts(tier, random.Random(sd + 12)))
+    # ---- A2b ill-typed programs that need an infinite type (the occurs check must answer, in every position of the type)
+    occ_bodies = ["let g = |f| f(f);", "let g = |f| if true { f } else { f(1) };", "let g = |f| if true { f(1) } else { f };",
+                  "let g = |x| vec_push(x, x);", "let g = |x| ref_set(x, x);", "let g = |x| (x, 1) == x;", "let g = |x| [x, array_get(x, 0)];",
+                  "let g = |f| (f, f(1)).0;", "let g = |f| match f(1) { y => if true { f } else { y } };", "let g = |x| Some_(x) == x;",
+                  "let g = |f, a| f(f, a);", "let g = |f| |a| f(f)(a);", "let h = |x| x; let g = |f| h(f)(f);",
+                  "let r = ref(|a: int32| a); let _ = ref_set(r, |a| ref_get(r));", "let g = |f| { let k = f; k(k) };"]
+    add_texts("occurs", ["enum Opt[T] { None_, Some_(T) }\nfn main() -> unit {\n    " + b + "\n    ()\n}\n" for b in occ_bodies])
     # ---- A3 nesting, moderate depth in process
     add_texts("nest", [nest(k, d) for k in NEST_KINDS for d in ((16, 64) if quick else (16, 64, 200))])
     # ---- A4 program families (well-typed) and ill-typed variants
@@ -399,6 +406,42 @@ def run(tier, rep):
             art_n += 1
         open(path, "w").write(orig)
 
+    # ---- E2 link with every subset / order / duplication of the cores of a project whose packages share generic types
+    groot = workdir("c04-linksets")
+    os.makedirs(groot + "/src", exist_ok=True)
+    gsrc = {
+        "Lib": "package Lib\n\nenum Box[T] { Empty, Full(T) }\nstruct Pair[A, B] { a: A, b: B }\n"
+               "fn wrap[T](x: T) -> Box[T] { Box::Full(x) }\nfn unbox[T](b: Box[T], d: T) -> T { match b { Box::Empty => d, Box::Full(v) => v } }\n"
+               "fn pair[A, B](a: A, b: B) -> Pair[A, B] { Pair { a: a, b: b } }\nfn first[A, B](p: Pair[A, B]) -> A { p.a }\nfn lib_f(x: int32) -> int32 { x + 1 }\n",
+        "Mid": "package Mid\nimport Lib\n\nfn mid_f(x: int32) -> int32 { Lib::unbox(Lib::wrap(x), 0) + Lib::lib_f(x) }\n",
+        "Main": "package Main\nimport Lib\nimport Mid\n\nfn main() {\n    let p = Lib::pair(Mid::mid_f(1), Lib::wrap(\"s\"));\n"
+                "    let _ = string_println(int32_to_string(Lib::first(p)) + Lib::unbox(Lib::wrap(\"t\"), \"d\"));\n    ()\n}\n",
+    }
+    for n_, t_ in gsrc.items():
+        open(f"{groot}/src/{n_}.gom", "w").write(t_)
+    built = True
+    for n_ in ("Lib", "Mid", "Main"):
+        r = cli_run(["build", "--package", n_, "--input", f"{groot}/src/{n_}.gom", "--interface-path", f"{groot}/out", "--output", f"{groot}/out/{n_}"])
+        classes["linkset-build:" + r["verdict"]] += 1
+        records.append(cli_record(f"linkset-build#{n_}", "build", r))
+        by_id[f"linkset-build#{n_}"] = ({"id": n_, "source": gsrc[n_]}, r)
+        built = built and r["verdict"] == "ok"
+    link_n = 0
+    if built:
+        import itertools
+        core = lambda n_: f"{groot}/out/{n_}.core"
+        sets = []
+        for k in (1, 2, 3):
+            sets += list(itertools.permutations(("Lib", "Mid", "Main"), k))
+        sets += [("Main", "Main"), ("Lib", "Lib", "Mid", "Main"), ("Lib", "Mid", "Main", "Main"), ()]
+        for st in sets:
+            r = cli_run(["link", "--input"] + [core(x) for x in st] + ["--output", f"{groot}/out/linked_{link_n}.go"])
+            rid = "linkset#" + "+".join(st)
+            classes["linkset:" + r["verdict"]] += 1
+            records.append(cli_record(rid, "link", r))
+            by_id[rid] = ({"id": rid, "cores": list(st)}, r)
+            link_n += 1
+    rep.coverage["link_sets"] = link_n
     # ---- validate every outcome against the contract
     d = workdir("c04-trace")
     chunks = [records[i:i + 40000] for i in range(0, len(records), 40000)]
